@@ -6,6 +6,7 @@ use serde_json::{json, Value};
 
 pub mod auth;
 pub mod cjson;
+pub mod events;
 pub mod hashes;
 pub mod html;
 pub mod ids;
@@ -54,6 +55,7 @@ fn run_inner(name: &str, tier: &str) -> Option<Value> {
         "pushcond" => pushcond::run(tier).to_json(),
         "pushops" => pushops::run(tier).to_json(),
         "cjson" => cjson::run(tier).to_json(),
+        "events" => events::run(tier).to_json(),
         "auth" => auth::run(tier).to_json(),
         "hashes" => hashes::run(tier).to_json(),
         "html" => html::run(tier).to_json(),
